@@ -20,7 +20,7 @@ ASSUMPTIONS = ["failpoints raise a RuntimeError subclass at the entry of a layer
                "sites at or below the transport cipher in the byte stream (network, segments in both directions, noise on receive) lose bytes of an ordered encrypted stream when they fail: "
                "for them same-connection follow-ups are only required not to block, and everything is required to work after a reconnect",
                "after-failure follow-ups run in helper threads so that a wedged stack is observed as a blocked thread instead of hanging the check"]
-REQUIRED = ["placed_followup_phases", "placed_followups_ok", "placed_round:me/send", "placed_round:me/recv", "placed_round:fresh/send", "placed_round:fresh/recv", "placed_round:fresh-any/send", "concurrent_followup_phases", "concurrent_followups_ok", "real_upward_failure_cases", "real_upward_failure_ok", "real_write_error_cases", "real_write_error_ok", "real_write_error:socket", "real_write_error:asyncore", "cases", "failpoints_reached", "natural_failures", "locks_censused", "followups_ok", "reconnect_followups_ok",
+REQUIRED = ["keyfetch_failure_cases", "keyfetch_failure_ok", "keyfetch_failure:no-keys-answer", "keyfetch_failure:send-raises", "keyfetch_failures_injected", "placed_followup_phases", "placed_followups_ok", "placed_round:me/send", "placed_round:me/recv", "placed_round:fresh/send", "placed_round:fresh/recv", "placed_round:fresh-any/send", "concurrent_followup_phases", "concurrent_followups_ok", "real_upward_failure_cases", "real_upward_failure_ok", "real_write_error_cases", "real_write_error_ok", "real_write_error:socket", "real_write_error:asyncore", "cases", "failpoints_reached", "natural_failures", "locks_censused", "followups_ok", "reconnect_followups_ok",
             "sites", "other_thread_followups"]
 TIMEOUT = {"quick": 600, "thorough": 7200}
 
@@ -503,6 +503,111 @@ def run_case(acc, seed, tag, d):
 NATURALS = ["unencodable", "send-while-down", "undecodable-frame", "unknown-picture-notification", "app-callback-raises", "unknown-stream-error"]
 
 
+def keyfetch_failure_case(acc, seed, tag, how):
+    """A message arrives from a sender with whom this installation has no session; the key request that follows fails (the server
+    answers without keys, or a lower layer raises while the request goes down). The next message from the same sender must be
+    handled like the first: a new key request, and in the end a reaction to every message (shown, or a receipt / retry receipt)."""
+    from vf import world
+    from yowsup.layers.protocol_messages.protocolentities import TextMessageProtocolEntity
+    r = gen.rng(seed, ID, tag)
+    W = world.World(seed=r.randrange(1 << 30), strategy="uniform", batch=20, wiring="full")
+    A, B = "4911" + gen.s_from(r, gen.DIGITS, 7), "4922" + gen.s_from(r, gen.DIGITS, 7)
+    from yowsup.layers.axolotl.props import PROP_IDENTITY_AUTOTRUST
+    W.add_client(A, props={PROP_IDENTITY_AUTOTRUST: True})
+    W.add_client(B, props={PROP_IDENTITY_AUTOTRUST: True})
+    w = {"tag": tag, "kind": "keyfetch-failure", "how": how}
+    acc.count("keyfetch_failure_cases")
+    acc.count("keyfetch_failure:" + how)
+    acc.case(["keyfetch", tag], nontrivial=True)
+    from_a = []
+    orig_process = W.server.process
+
+    def process(client, t):
+        if client.phone == A:
+            from_a.append(t)
+        return orig_process(client, t)
+    W.server.process = process
+    ids = {}
+
+    def send(frm, to, mk):
+        def build():
+            e = TextMessageProtocolEntity(mk, to="%s@s.whatsapp.net" % to)
+            ids[mk] = e.getId()
+            return e
+        return {"op": "send", "who": frm, "kind": "text", "uid": mk, "build": build}
+
+    def run(actions):
+        W.script = list(W.script) + actions
+        return W.run(max_steps=W.steps + 12000)
+
+    def key_requests():
+        return len([t for t in from_a if t[0] == "iq" and t[1].get("xmlns") == "encrypt" and t[1].get("type") == "get"
+                    and any(u[1].get("jid", "").startswith(B) for k in t[2] if k[0] == "key" for u in k[2])])
+
+    def reacted(mk):
+        mid = ids.get(mk)
+        shown = any(ph == A and k == "message" and getattr(e, "getBody", lambda: None)() == mk for ph, k, e, g in W.app_log)
+        rc = [t for t in from_a if t[0] == "receipt" and t[1].get("id") == mid]
+        return shown, len(rc)
+    try:
+        if not run([{"op": "connect", "who": A}, {"op": "connect", "who": B}, {"op": "wait-quiet"}, send(B, A, "KF0"), {"op": "wait-quiet"}, send(A, B, "KF1"), {"op": "wait-quiet"}]):
+            acc.inconc("%s: set-up did not quiesce" % tag)
+            return
+        if not reacted("KF0")[0]:
+            acc.inconc("%s: set-up message not shown" % tag)
+            return
+        # this installation is replaced by a fresh one (new key store): the peer still encrypts for the old session
+        run([{"op": "reinstall", "who": A}, {"op": "wait-quiet"}])
+        del from_a[:]
+        a = W.clients[A]
+        bj = "%s@s.whatsapp.net" % B
+        st = {"armed": False, "calls": 0, "fired": False, "thread": None}
+        if how == "no-keys-answer":
+            W.server.key_errors[bj] = ("404", "item-not-found")
+        else:
+            sites = dict(layer_sites(a))
+            lay = sites["YowCoderLayer"]
+            orig_send = lay.send
+
+            def failing(node):
+                # (only the key request: whatever else goes down passes)
+                if not st["fired"] and getattr(node, "tag", None) == "iq" and node["xmlns"] == "encrypt" and node["type"] == "get":
+                    st["fired"] = True
+                    raise FailpointError("failpoint: the key request could not be sent")
+                return orig_send(node)
+            lay.send = failing
+        run([send(B, A, "KF2"), {"op": "wait-quiet"}])
+        n1 = key_requests()
+        if how == "no-keys-answer":
+            W.server.key_errors.pop(bj, None)
+            if n1 < 1:
+                acc.inconc("%s: the message without session did not lead to a key request (requests %d)" % (tag, n1))
+                return
+        else:
+            lay.send = orig_send
+            if not st["fired"]:
+                acc.inconc("%s: the failpoint on the key request was not reached" % tag)
+                return
+        acc.count("keyfetch_failures_injected")
+        run([send(B, A, "KF3"), {"op": "wait-quiet"}])
+        n2 = key_requests()
+        w["key_requests"] = [n1, n2]
+        w["reactions"] = {mk: reacted(mk) for mk in ("KF2", "KF3")}
+        if n2 <= n1 and not all(reacted(mk)[0] or reacted(mk)[1] for mk in ("KF2", "KF3")):
+            acc.violation("keyfetch-failure:%s:later-message-not-handled" % how, "after a failed key request (%s) the next message of the same sender led to no new key request (%d before, %d after) "
+                          "and the messages got no reaction (shown / receipts: %s)" % (how, n1, n2, w["reactions"]), w)
+            return
+        lost = [mk for mk in ("KF2", "KF3") if not (reacted(mk)[0] or reacted(mk)[1])]
+        if lost:
+            acc.violation("keyfetch-failure:%s:message-without-reaction" % how, "after a failed key request (%s) messages %s were neither shown nor answered with a receipt / retry receipt "
+                          "(key requests %d then %d)" % (how, lost, n1, n2), w)
+            return
+        acc.count("keyfetch_failure_ok")
+        acc.count("keyfetch_shown", len([1 for mk in ("KF2", "KF3") if reacted(mk)[0]]))
+    finally:
+        W.close()
+
+
 def all_cases(tier):
     cases = []
     nsites = 24   # upper bound; indexes wrap around the actual number of layers (23 in the default stack)
@@ -759,12 +864,19 @@ def shards(tier, seed, nworkers):
     for dname in ("socket", "asyncore"):
         specs.append({"kind": "real-write-error", "dispatcher": dname, "n": 3 if q else 40})
         specs.append({"kind": "real-upward-failure", "dispatcher": dname, "n": 3 if q else 40})
+    for how in ("no-keys-answer", "send-raises"):
+        specs.append({"kind": "keyfetch-failure", "how": how, "n": 3 if q else 40})
     return specs
 
 
 def run(spec, acc):
     from vf import env
     env.shim_thirdparty()
+    if spec["kind"] == "keyfetch-failure":
+        for i in range(spec["n"]):
+            keyfetch_failure_case(acc, spec["seed"], "kf/%s/%d" % (spec["how"], i), spec["how"])
+        acc.sample({"keyfetch_failure": "message from a sender without session, the key request fails (%s), next message of that sender" % spec["how"]})
+        return
     if spec["kind"] == "real-upward-failure":
         for i in range(spec["n"]):
             real_upward_failure_case(acc, spec["seed"], "ru/%s/%d" % (spec["dispatcher"], i), spec["dispatcher"])
@@ -785,4 +897,11 @@ def run(spec, acc):
 def replay(spec, acc):
     from vf import env
     env.shim_thirdparty()
-    run_case(acc, spec["seed"], spec["witness"]["tag"], spec["witness"]["desc"])
+    wt = spec["witness"]
+    if wt.get("kind") == "keyfetch-failure":
+        return keyfetch_failure_case(acc, spec["seed"], wt["tag"], wt["how"])
+    if "desc" not in wt:
+        tag = wt["tag"]
+        fn = real_write_error_case if tag.startswith("rw/") else real_upward_failure_case
+        return fn(acc, spec["seed"], tag, wt["dispatcher"])
+    run_case(acc, spec["seed"], wt["tag"], wt["desc"])
